@@ -268,6 +268,13 @@ def main():
     translate(pid, result)
     build_lean(pid, cfg, result)
     audit(pid, cfg, result)
+    if tier == "thorough" and not result["broken"]:
+        # independent re-check of the compiled theorem modules
+        for m in cfg.get("lean_modules", []):
+            rc, out, dt = run(["lake", "env", "leanchecker", m], cwd=LEAN, timeout=1800)
+            result["leanchecker_s"] = round(result.get("leanchecker_s", 0) + dt, 2)
+            if rc != 0:
+                result["broken"].append({"what": "proof", "name": m, "detail": "leanchecker: " + out[-800:]})
     exe = build_harness(pid, cfg, result)
     report = run_harness(pid, cfg, exe, tier, seed, result) if exe else None
 
